@@ -16,18 +16,21 @@ Proof. exact (eq_refl sites_fixed). Qed.
    subdirectory d at any depth, every place the process itself runs in (d, or anywhere with -C d),
    every target list (or none) and every relative destination: the command plans -- store targets,
    disk targets, directory rules, copy and move destinations -- exactly what the same command plans
-   at the root with "d/" put in front of every argument (and of the empty target list) *)
+   at the root with "d/" put in front of every argument ("d/" itself when no target list is given).  A target
+   LIST that is empty -- what remove and untrack hand over when no target is named -- has nothing to prefix: what
+   it means is the second theorem, empty_targets_apply_under_cwd *)
 Theorem cwd_equivariance :
   forall (gms : list str -> str -> bool) (is_dir is_dir_out : str -> bool) (disk : list str)
          (file_out : str -> bool) (rootabs : list str) (d : str) (pr : option str) (a : args) (stored : list str),
     subdir d ->
+    a_targets a <> Some [] ->
     match a_dest a with Some s => rel_arg s = true | None => True end ->
     plan_of gms is_dir is_dir_out disk file_out rootabs current_sites {| cwd := d; proc := pr |} a stored =
     plan_of gms is_dir is_dir_out disk file_out rootabs current_sites at_root (rebase_args d a) stored.
 Proof.
-  intros gms is_dir is_dir_out disk file_out rootabs d pr a stored Hs Hd.
+  intros gms is_dir is_dir_out disk file_out rootabs d pr a stored Hs Hne Hd.
   rewrite current_sites_fixed.
-  exact (plan_equivariant_fixed gms is_dir is_dir_out disk file_out rootabs d pr a stored Hs Hd).
+  exact (plan_equivariant_fixed gms is_dir is_dir_out disk file_out rootabs d pr a stored Hs Hne Hd).
 Qed.
 
 (* "With no targets it applies to the files under the current directory" *)
@@ -42,6 +45,18 @@ Proof.
   exact (no_targets_under_cwd gms is_dir H d pr stored Hd).
 Qed.
 
+(* ... also for the commands that hand over their (then empty) target list: `cd d; xvc file untrack` *)
+Theorem empty_targets_apply_under_cwd :
+  forall (gms : list str -> str -> bool) (is_dir : str -> bool),
+    (forall g p, ends_with_slash g = true -> gms [g ++ [star; star]] p = starts_with g p) ->
+    forall d pr stored, d <> [] ->
+      resolve_store gms is_dir current_sites {| cwd := d; proc := pr |} (Some []) stored =
+      filter (starts_with (with_slash d)) stored.
+Proof.
+  intros gms is_dir H d pr stored Hd. rewrite current_sites_fixed.
+  exact (empty_targets_under_cwd gms is_dir H d pr stored Hd).
+Qed.
+
 (* XvcPath::new: a string relative to the subdirectory names the path "d/" ++ string names at the root,
    including "." and ".." components in the string *)
 Theorem destination_equivariant :
@@ -51,6 +66,7 @@ Proof. exact xvcpath_new_rebase. Qed.
 
 Check cwd_equivariance.
 Check no_targets_apply_under_cwd.
+Check empty_targets_apply_under_cwd.
 
 (* ---- non-vacuity and witnesses ------------------------------------------------------------------------ *)
 Local Open Scope N_scope.
@@ -100,6 +116,18 @@ Example workdir_file_target_refuted :
                   {| cwd := []; proc := None |} {| a_targets := Some [[99; 46; 116; 120; 116]]; a_dest := None |} STORED) = [[99; 46; 116; 120; 116]].
 Proof. split; vm_compute; reflexivity. Qed.
 
+(* P51 (before the repair): from d/, `xvc file untrack` (an empty target LIST) selects every tracked path of the
+   repository, c.txt at the root included; with the repair exactly the paths under d/ *)
+Definition sites_before_P51 : sites :=
+  {| st_store_sep := true; st_store_empty_cwd := false; st_disk_sep := true; st_copy_dirdest := BCwd; st_move_dirdest := BCwd;
+     st_copy_filedest := BCwd; st_move_filedest := BCwd; st_disk_isdir := BRoot; st_disk_file := BRoot;
+     st_track_isdir := BCwd; st_track_resolve := BRoot |}.
+Example empty_targets_select_everything_refuted :
+  resolve_store toy (fun _ => false) sites_before_P51 {| cwd := D; proc := Some D |} (Some []) STORED = STORED
+  /\ resolve_store toy (fun _ => false) sites_fixed {| cwd := D; proc := Some D |} (Some []) STORED = [[100; 47; 97; 46; 116; 120; 116]]
+  /\ resolve_store toy (fun _ => false) sites_fixed {| cwd := D; proc := Some D |} None STORED = [[100; 47; 97; 46; 116; 120; 116]].
+Proof. repeat split; vm_compute; reflexivity. Qed.
+
 (* P30 (pinned tree): `xvc file track` without targets panics after the records were saved *)
 Example track_no_targets_panics_refuted :
   p_dirs (plan_of toy (fun _ => true) (fun _ => false) STORED (fun _ => false) ROOTABS sites_pinned
@@ -112,4 +140,5 @@ Print Assumptions current_sites_recognised.
 Print Assumptions current_sites_fixed.
 Print Assumptions cwd_equivariance.
 Print Assumptions no_targets_apply_under_cwd.
+Print Assumptions empty_targets_apply_under_cwd.
 Print Assumptions destination_equivariant.
